@@ -16,7 +16,9 @@
 #include <sys/wait.h>
 #include <unistd.h>
 
+#include <chrono>
 #include <condition_variable>
+#include <memory>
 #include <cstdio>
 #include <cstring>
 #include <functional>
@@ -426,7 +428,64 @@ static void run_par(const char* id, int nthreads, int adds, int reads, int churn
   delete obj;
 }
 
+// PR <helpers> <batch> <budget-ms> : real-thread stress of destruction racing with construction.  <helpers> parked threads
+// own thread slots (longer zeroing sweep); a builder thread (highest slot) constructs <batch> adders per round and counts
+// 1 into each while the main thread destroys one unrelated adder somewhere inside that burst.  At the quiescent point
+// every adder of the round must read exactly 1 (a newly constructed counter owns its column exclusively).
+static void run_recycle(const char* id, int nhelpers, int batch, int budget_ms) {
+  ConcurrentAdder warm;
+  std::atomic<int> up {0};
+  std::atomic<bool> quit {false};
+  std::vector<std::thread> helpers;
+  for (int i = 0; i < nhelpers; ++i)
+    helpers.emplace_back([&] {
+      warm << 1;
+      up.fetch_add(1);
+      while (!quit.load()) std::this_thread::sleep_for(std::chrono::milliseconds(2));
+    });
+  while (up.load() != nhelpers) std::this_thread::yield();
+  std::atomic<size_t> round_go {0}, built {0}, destroyed {0}, checked {0};
+  std::atomic<bool> stop {false};
+  std::atomic<size_t> bad {0};
+  std::atomic<ll> bad_value {0};
+  std::thread builder([&] {
+    warm << 1;
+    std::vector<std::unique_ptr<ConcurrentAdder>> adders;
+    for (size_t round = 1;; ++round) {
+      while (round_go.load() != round) if (stop.load()) return;
+      for (int i = 0; i < batch; ++i) { adders.emplace_back(new ConcurrentAdder); *adders.back() << 1; }
+      built.store(round);
+      while (destroyed.load() != round) {}
+      for (auto& a : adders) { auto v = a->value(); if (v != 1) { bad.fetch_add(1); bad_value.store(v); } }
+      adders.clear();
+      checked.store(round);
+    }
+  });
+  auto deadline = std::chrono::steady_clock::now() + std::chrono::milliseconds(budget_ms);
+  size_t round = 0;
+  unsigned spin = 1;
+  while (bad.load() == 0 && std::chrono::steady_clock::now() < deadline) {
+    ++round;
+    auto* victim = new ConcurrentAdder;
+    *victim << 5;
+    round_go.store(round);
+    spin = spin * 1103515245u + 12345u;
+    for (unsigned i = 0, n = (spin >> 16) % 4000; i < n; ++i) __asm__ volatile("" ::: "memory");
+    delete victim;
+    destroyed.store(round);
+    while (checked.load() != round) {}
+  }
+  stop.store(true);
+  builder.join();
+  quit.store(true);
+  for (auto& h : helpers) h.join();
+  printf("%s par rounds=%zu | recycle=%d%s%s\n", id, round, bad.load() == 0, bad.load() ? " fail=par:an adder constructed while another was being destroyed lost its contribution, reads " : "",
+         bad.load() ? std::to_string(bad_value.load()).c_str() : "");
+  fflush(stdout);
+}
+
 static void dispatch(const char* id, const std::string& kind, std::vector<std::string>& ops) {
+  if (kind == "PR" && ops.size() >= 3) { run_recycle(id, atoi(ops[0].c_str()), atoi(ops[1].c_str()), atoi(ops[2].c_str())); return; }
   if (kind[0] == 'P' && kind.size() == 2 && ops.size() >= 4) {
     int n = atoi(ops[0].c_str()), adds = atoi(ops[1].c_str()), reads = atoi(ops[2].c_str()), churn = atoi(ops[3].c_str());
     switch (kind[1]) {
